@@ -3,6 +3,8 @@ package main
 import (
 	"fmt"
 	"strings"
+
+	"github.com/semihalev/twig"
 )
 
 // C06 — a sandboxed include can never run a filter or function the policy forbids.
@@ -35,6 +37,9 @@ var c06Positions = []struct{ name, src string }{
 	{"fn-condition", "{% if badfn() %}y{% endif %}"},
 	{"macro-default", "{% macro dm(a = x|bad) %}{{ a }}{% endmacro %}{{ dm() }}"},
 	{"macro-arg", "{% macro am(a) %}{{ a }}{% endmacro %}{{ am(x|bad) }}"},
+	{"module-call-on-map", "{{ plainmap.badfn() }}"},
+	{"module-call-shadowed-by-macro", "{% macro badfn() %}macro{% endmacro %}{{ plainmap.badfn() }}"},
+	{"call-shadowed-by-macro-name", "{% macro okfn() %}macro{% endmacro %}{{ okfn(x|bad) }}"},
 }
 
 // routes by which the sandboxed template reaches the position
@@ -49,7 +54,7 @@ func c06Templates(route, pos string) map[string]string {
 		t["box"] = "[{% include 'inner' %}]"
 		t["inner"] = pos
 	case "include-only":
-		t["box"] = "[{% include 'inner' with {'x': x, 'xs': xs, 't': t, 'zero': 0} only %}]"
+		t["box"] = "[{% include 'inner' with {'x': x, 'xs': xs, 't': t, 'zero': 0, 'plainmap': plainmap} only %}]"
 		t["inner"] = pos
 	case "include-with":
 		t["box"] = "[{% include 'inner' with {'extra': 1} %}]"
@@ -82,7 +87,7 @@ func runC06(e *Env) error {
 	r.Rule = "a template rendered through `include … sandboxed` reaches a forbidden spy filter/function written in each of 24 syntactic positions through each of 10 routes (direct, nested includes with/without only/with, extends, parent(), import/from macros, local macro, two-level nesting) — all 240 combinations — plus random policies and random programs using spy filters; " +
 		"oracles (implementation-only): a forbidden callback is never invoked and the render fails with a security violation; the same program with the callback allowed renders; the including template outside the sandbox may call the same callback; plus the Lean pipeline (incl. trace of invocations); " +
 		"non-trivial = every case (each has a sandbox boundary and a forbidden callback); distinct by template set + policy"
-	ctx := map[string]any{"x": "val", "xs": []interface{}{"p", "q"}, "t": true, "f": false, "zero": 0, "nul": nil}
+	ctx := map[string]any{"x": "val", "xs": []interface{}{"p", "q"}, "t": true, "f": false, "zero": 0, "nul": nil, "plainmap": map[string]interface{}{"k": 1}}
 	basePolicy := func(allowBad bool) *PolicySpec {
 		p := &PolicySpec{Filters: []string{"upper", "lower", "default", "join", "escape", "length", "okf"},
 			Functions: []string{"okfn", "range", "parent", "mac", "dm", "am"}}
@@ -163,6 +168,48 @@ func runC06(e *Env) error {
 						return nil
 					}
 				}
+			}
+		}
+	}
+	// the policy in force is the one installed last: renders under policy P1 must not leave anything behind
+	// that lets a render under a stricter P2 invoke what P2 forbids (one engine, several renders)
+	for _, pos := range []string{"{{ x|bad|upper }}", "{{ x|bad }}", "{% for c in xs|bad %}{{ c }}{% endfor %}", "{{ badfn() }}", "{{ okfn(badfn()) }}", "{% apply bad %}b{% endapply %}"} {
+		var spies []string
+		res := guarded(func() (string, error) {
+			eng := twig.New()
+			mkPol := func(allow bool) *twig.DefaultSecurityPolicy {
+				p := &twig.DefaultSecurityPolicy{AllowedFilters: map[string]bool{"upper": true}, AllowedFunctions: map[string]bool{"okfn": true}, AllowedTags: map[string]bool{}}
+				if allow {
+					p.AllowedFilters["bad"], p.AllowedFunctions["badfn"] = true, true
+				}
+				return p
+			}
+			eng.AddFilter("bad", func(v interface{}, a ...interface{}) (interface{}, error) { spies = append(spies, "bad"); return v, nil })
+			eng.AddFunction("badfn", func(a ...interface{}) (interface{}, error) { spies = append(spies, "badfn"); return "r", nil })
+			eng.AddFunction("okfn", func(a ...interface{}) (interface{}, error) { return "ok", nil })
+			eng.RegisterString("main", "{% include 'box' sandboxed %}")
+			eng.RegisterString("box", pos)
+			eng.EnableSandbox(mkPol(true))
+			if _, err := eng.Render("main", ctx); err != nil {
+				return "", fmt.Errorf("allowed render failed: %w", err)
+			}
+			n1 := len(spies)
+			if n1 == 0 {
+				return "", fmt.Errorf("allowed render did not invoke the callback")
+			}
+			eng.EnableSandbox(mkPol(false))
+			out, err := eng.Render("main", ctx)
+			if len(spies) != n1 || err == nil {
+				return "", fmt.Errorf("POLICY-CHANGE-IGNORED: after installing a policy that forbids it the callback ran %d more time(s); output %q, error %v", len(spies)-n1, out, err)
+			}
+			return "ok", nil
+		})
+		r.Seen("policy-change:"+pos, true)
+		if res.Class != "" {
+			if r.Violate(Violation{Key: "sandbox-escape", What: fmt.Sprintf("%s: %v %s", pos, res.Err, truncate(res.Panic, 200)),
+				Broken: "theorem C06_confinement (the policy is a parameter of every invocation; implementation-only oracle: policy change between renders)",
+				Replay: map[string]any{"kind": "policy-change", "box": pos, "err": fmt.Sprint(res.Err)}}) {
+				return nil
 			}
 		}
 	}
